@@ -20,6 +20,7 @@ import (
 	"compress/gzip"
 	"io"
 	"net/http"
+	"strconv"
 	"strings"
 
 	"github.com/tmpim/casket"
@@ -53,7 +54,7 @@ type Config struct {
 
 // ServeHTTP serves a gzipped response if the client supports it.
 func (g Gzip) ServeHTTP(w http.ResponseWriter, r *http.Request) (int, error) {
-	if !strings.Contains(r.Header.Get("Accept-Encoding"), "gzip") {
+	if !acceptsGzip(r.Header.Get("Accept-Encoding")) {
 		return g.Next.ServeHTTP(w, r)
 	}
 outer:
@@ -116,6 +117,28 @@ outer:
 
 // gzipResponseWriter wraps the underlying Write method
 // with a gzip.Writer to compress the output.
+// acceptsGzip reports whether an Accept-Encoding header value offers gzip;
+// a quality value of zero ("gzip;q=0") means gzip is not acceptable.
+func acceptsGzip(header string) bool {
+	for _, part := range strings.Split(header, ",") {
+		fields := strings.Split(part, ";")
+		coding := strings.TrimSpace(fields[0])
+		if !strings.EqualFold(coding, "gzip") && !strings.EqualFold(coding, "x-gzip") {
+			continue
+		}
+		for _, param := range fields[1:] {
+			param = strings.TrimSpace(param)
+			if strings.HasPrefix(param, "q=") {
+				if q, err := strconv.ParseFloat(param[2:], 64); err == nil && q == 0 {
+					return false
+				}
+			}
+		}
+		return true
+	}
+	return false
+}
+
 type gzipResponseWriter struct {
 	internalWriter io.Writer
 	*httpserver.ResponseWriterWrapper
